@@ -62,6 +62,10 @@ def boundary_seqs():
                         "shrink", "strip", "nosp", "h2b", "b2h U", "b64d", "b64e", "rtz", "appmb 5", "dup", "appch 65"])
     for n in (1, 2, 3, 19, 20, 21, 39, 40, 41, 100):
         out.append(["new %s %d" % (c19.hx(b"x" * n), blk) for blk in (0, n - 1, n, n + 1)] + ["appd " + c19.hx(b"y" * n), "b2h L", "h2b", "b64e", "b64d", "dup", "appch 0", "rtz"])
+    # the 32-bit size computation of create (d7df267): a wrapped size is refused, the previous buffer stays
+    out.append(["new 6162 3", "new 6364 4294967295", "len", "new - 4294967295", "appch 65", "new 41 4294967295", "new 6162636465 4294967295",
+                "dup", "new 7a 0", "get 0"])
+    out.append(["sta 6162", "new 6364 4294967295", "get 1", "new 63 1", "new 6465 4294967295", "appch 66"])
     out.append(["new - 0", "h2b", "b2h U", "b64e", "b64d", "shrink", "strip", "nosp", "rtz", "words", "dup", "appch 7", "del 0 1", "appc 00"])
     for blk in (0, 1, 100):
         out.append(["new 6162 %d" % blk, "F1 appch 99", "A1 appd 6364", "F1 ins 7878 1", "F1 insc 7900 0", "F1 app 7a", "F1 appc 7a00", "F1 appmb 300",
@@ -76,7 +80,7 @@ def boundary_seqs():
 def run(ctx):
     ctx.level = "proof"
     ctx.assumptions = [
-        "octets are modelled as N, len as nat; the model assumes len + growth < 2^32 (no wrap of buffer->len + size); create's size computation is mod 2^32 as in the C and the theorems require len + 1 + malloc_block < 2^32",
+        "octets are modelled as N, len as nat; the model assumes len + growth < 2^32 (no wrap of buffer->len + size); create's size computation is mod 2^32 as in the C and a wrapped size is refused (NULL), as d7df267 does",
         "allocation never fails in the model (allocation failure is C16's subject)",
         "isspace() in the \"C\" locale = {32, 9..13}",
         "freshly allocated cells hold 170 in the model, so the NUL after the contents exists only where the code stores it",
